@@ -40,13 +40,13 @@ type c14Case struct {
 }
 
 type c14State struct {
-	c      *core.Ctx
-	env    *Env
-	users  map[string]*s3c.Client
-	iam    c14IAM
-	mu     sync.Mutex
-	nHTTP  int64
-	nDirect int64
+	c            *core.Ctx
+	env          *Env
+	users        map[string]*s3c.Client
+	iam          c14IAM
+	mu           sync.Mutex
+	nHTTP        int64
+	nDirect      int64
 	observations []string
 }
 
@@ -143,10 +143,10 @@ func C14(c *core.Ctx, replay string) {
 // (a) glob vectors
 
 type c14GlobCfg struct {
-	name                string
-	pat, subj           string
-	maxPatQ, maxPatT    int
-	maxSubj             int
+	name             string
+	pat, subj        string
+	maxPatQ, maxPatT int
+	maxSubj          int
 }
 
 func c14SetLit(chars string) string {
